@@ -388,7 +388,7 @@ def _base_networks(n, count, rng):
 def run_bounded(rep: Report, tier: str) -> None:
     quick = tier == "quick"
     rng = random.Random(seed() * 15485863 + 19)
-    state = {"viols": [], "deadline": deadline(tier, 80, 25 * 60), "timed_out": False}
+    state = {"viols": [], "deadline": deadline(tier, 240, 25 * 60), "timed_out": False}
     rep.rule = (
         "a case is (network, index sizes, contraction tree, set of sliced indices, per-tensor decimal scales [, per-slice slab "
         "scales], API, contraction options) on float64 arrays K*10**scale with K integer in 1..5; non-trivial: at least two "
